@@ -23,6 +23,10 @@ impl LitKind {
         match self {
             LitKind::Sym => parse_lit_prefix(s).map(|x| x.1),
             LitKind::Val => {
+                if s.starts_with('[') {
+                    // array literals: only well-formed ones are ever generated
+                    return s.find(']').map(|e| e + 1);
+                }
                 for w in ["true", "false"] {
                     if s.starts_with(w) {
                         return Some(w.len());
